@@ -107,6 +107,17 @@ CHECKS = {
         "quick": {"rapid_checks": 2000, "timeout": 900},
         "thorough": {"rapid_checks": 40000, "timeout": 3000, "shards": 8},
     },
+    "C12": {
+        "pkg": "./checks/c12",
+        "level": "exploration",
+        "assumptions": [
+            "'used' follows the statement: a definition emitted for an item of a class expression that ends up disabled is allowed (at most once, before any use)",
+            "script calls are evaluated in V8: all script elements in document order, then every handler attribute in document order",
+            "a shared context is one that was initialised (templ.InitializeContext or the CSS middleware) before rendering; an uninitialised context.Background() gives every render its own state by design",
+        ],
+        "quick": {"rapid_checks": 3000, "timeout": 900},
+        "thorough": {"rapid_checks": 60000, "timeout": 3000, "shards": 8},
+    },
     "C13": {
         "pkg": "./checks/c13",
         "level": "exploration",
